@@ -286,15 +286,33 @@ _COMPARISON_OP_TO_BINARY_OP_MAP = {"==": BinaryOpType.EQUAL,
 
 
 class TypeCastDropper(IdentityMapper):
+    def __init__(self, bindings: Mapping[str, Array] | None = None) -> None:
+        super().__init__()
+        self.bindings = bindings or {}
+
     def map_type_cast(self, expr: TypeCast) -> Any:
-        return self.rec(expr.inner_expr)
+        inner = expr.inner_expr
+        # a cast that the operand's dtype does not survive unchanged is part
+        # of the computation: cast(int8, a[_0]) + b[_0] is not a + b
+        if (isinstance(inner, p.Subscript)
+                and isinstance(inner.aggregate, p.Variable)):
+            name: str | None = inner.aggregate.name
+        elif isinstance(inner, p.Variable):
+            name = inner.name
+        else:
+            name = None
+        if (name in self.bindings
+                and not np.can_cast(self.bindings[name].dtype, expr.dtype,
+                                    "safe")):
+            raise UnknownIndexLambdaExpr(expr)
+        return self.rec(inner)
 
 
 def index_lambda_to_high_level_op(expr: IndexLambda) -> HighLevelOp:
     """
     Returns a :class:`HighLevelOp` corresponding *expr*.
     """
-    inner_expr = TypeCastDropper()(expr.expr)
+    inner_expr = TypeCastDropper(expr.bindings)(expr.expr)
 
     if isinstance(inner_expr, SCALAR_CLASSES):
         return FullOp(inner_expr)
